@@ -73,12 +73,22 @@ class OutputSuppressionContext:
             sys.stderr = sys.__stderr__
 
     def __enter__(self) -> None:
-        # Save OS-level fds before the SUT has a chance to close them.
-        for fd in (0, 1, 2):
-            with contextlib.suppress(OSError):
-                self._saved_fds[fd] = os.dup(fd)
-        sys.stdout = self._null_file
-        sys.stderr = self._null_file
+        with self._restored_lock:
+            if self._restored:
+                # The execution was abandoned (timeout) before it got here; nobody
+                # would undo a redirection made now.
+                return
+            # Save OS-level fds before the SUT has a chance to close them.
+            for fd in (0, 1, 2):
+                with contextlib.suppress(OSError):
+                    self._saved_fds[fd] = os.dup(fd)
+            if self._null_file.closed:
+                # A previous test case closed ``sys.stdout``, i.e., our shared null file.
+                OutputSuppressionContext._null_file = open(  # noqa: PLW1514, PTH123, SIM115
+                    os.devnull, mode="w"
+                )
+            sys.stdout = self._null_file
+            sys.stderr = self._null_file
 
     def __exit__(self, exc_type, exc_val, exc_tb) -> None:
         self.restore()
